@@ -31,6 +31,9 @@ func init() {
 		},
 		Run:    func(w *W, idx int) { tryRun(w, idx, 4) },
 		Floors: c04Floors,
+		Extra: func(m *Merged, tier string) map[string]interface{} {
+			return map[string]interface{}{"exhaustive_subspaces": []string{"every boolean-core tree with <=2 internal nodes x every leaf labelling x every {true,false,unavailable} assignment x all 16 optimization subsets; every completion of the unavailable variables over {true,false}/{1,0}"}}
+		},
 	})
 	register(&Prop{
 		ID: "C05",
@@ -50,6 +53,9 @@ func init() {
 		},
 		Run:    func(w *W, idx int) { tryRun(w, idx, 5) },
 		Floors: c05Floors,
+		Extra: func(m *Merged, tier string) map[string]interface{} {
+			return map[string]interface{}{"exhaustive_subspaces": []string{"every boolean-core tree with <=2 internal nodes x every leaf labelling x every {true,false,unavailable} assignment x all 16 optimization subsets, each compared with the Kleene value"}}
+		},
 	})
 }
 
